@@ -696,7 +696,10 @@ class ModList(list):
 class Rec(set):
     """the variables a piece of code assigns; .shape: those assigned otherwise than by writing one element in place
     (v[i] = x / m[(i,j)] = x on the variable itself: upd / mset, which keep length resp. rows, cols)"""
-    def __init__(self): set.__init__(self); self.shape = set()
+    def __init__(self): set.__init__(self); self.shape = set(); self.order = []
+    def add(self, v):
+        if v not in self: self.order.append(v)
+        set.add(self, v)
 
 class Ctx:
     def __init__(self, ret, cont, records, ret_raw=None):
@@ -1443,6 +1446,7 @@ class Translator:
         finally:
             self.n, self.ctx, self.killed = saved_n, saved_ctx, saved_k
         self.last_shape = set(rec.shape)         # of these, the ones assigned otherwise than by single element writes
+        self.last_order = list(rec.order)        # in the order of their first assignment
         return [v for v in env.visible() if v in rec]
 
     def block(self, blk, env, k):
@@ -1739,6 +1743,7 @@ class Translator:
         self.bad("compound assignment to an unsupported place")
 
     def if_stmt(self, e, env, rest):
+        e0 = e
         e = self.canon_if(e, env)
         B = []
         c, tc = self.ex(e[1], env, B)
@@ -1760,10 +1765,11 @@ class Translator:
             self.block(th, env, lambda env2, v: (ends.append(env2), g_ok(g_raw("tt")))[1])
             self.block(el, env, lambda env2, v: (ends.append(env2), g_ok(g_raw("tt")))[1])
         outer_ctx = self.ctx
-        M = self.assigned_in(run, env); shape = self.last_shape
+        M = self.assigned_in(run, env); shape, order = self.last_shape, self.last_order
         # a variable declared without initialiser takes part in the join only if every path that falls through assigns it
         # (otherwise it is still unassigned afterwards and the assignments are local to their branch)
         M = [v for v in M if v not in env.uninit or all(v not in e2.uninit for e2 in ends)]
+        M = self.state_order(M, order, e0)
         env_after = env
         for v in M: env_after = env_after.init(v)
         names = self.state_of(M)
@@ -1777,16 +1783,17 @@ class Translator:
         for v in M: self.ctx.note(v, elem_only=(v not in shape))      # element writes stay element writes through a nested construct
         return wrap(B, mk_bind(names_pat(names), ("if", c, a, b), rest(env_after)))
 
-    def for_stmt(self, s, env, rest, after=None):
+    def for_stmt(self, s, env, rest, after=None, site=None):
+        """site: the statement of the source this loop stands for, when s is a canonicalised copy (state_order)"""
         pat, it, body = s[1], strip(s[2]), s[3]
         if pat[0] != "pvar": self.bad("`for` with a tuple pattern")
         cd = self.countdown_for(pat, it, body, env)
-        if cd is not None: return self.for_stmt(cd, env, rest, after)
+        if cd is not None: return self.for_stmt(cd, env, rest, after, site if site is not None else s)
         if it[0] == "mcall" and it[2] == "drain" and len(it[3]) == 1 and strip(it[3][0])[0] == "range" \
            and strip(it[3][0])[1] is None and strip(it[3][0])[2] is None:
-            return self.for_in_stmt(pat, it[1], body, env, rest, drain=True)
+            return self.for_in_stmt(pat, it[1], body, env, rest, drain=True, site=site if site is not None else s)
         if it[0] == "var" and env.lookup(it[1]) is not None and env.lookup(it[1]).ty in LISTS:
-            return self.for_in_stmt(pat, it, body, env, rest, drain=False)
+            return self.for_in_stmt(pat, it, body, env, rest, drain=False, site=site if site is not None else s)
         rev = False
         if it[0] == "mcall" and it[2] == "rev" and not it[3]:
             rev = True; it = strip(it[1])
@@ -1805,10 +1812,11 @@ class Translator:
             self.ctx = self.ctx.sub(record=rec, cont=lambda env2: g_ok(g_raw("tt")))
             self.block(body, env_i, lambda env2, v: g_ok(g_raw("tt")))
         outer_ctx = self.ctx
-        M = self.assigned_in(run, env); shape = self.last_shape
+        M = self.assigned_in(run, env); shape, order = self.last_shape, self.last_order
         # a variable that is still unassigned at the loop head is assigned in every pass before it is read and is not read
         # after the loop (definite assignment): it is local to the body, not part of the loop state
         M = [v for v in M if v not in env.uninit]
+        M = self.state_order(M, order, site if site is not None else s)
         names = self.state_of(M)
         early = contains_return(body)
         if early and (rev or signed): self.bad("`return` inside a reversed / isize `for` loop")
@@ -1840,6 +1848,39 @@ class Translator:
             pat_inl = "inl " + (names_term(names) if names else "_")
             return wrap(B, ("bind", ("v", o), loop, ("match", o, [(pat_inl, wrap(B2, rest(env))), ("inr %s" % r, outer_ctx.ret_raw(r))])))
         return wrap(B, mk_bind(names_pat(names), loop, wrap(B2, rest(env))))
+
+    # ------------------------------------------------------------------ the order of the state tuple (see the header, C8)
+    def number_sites(self, body):
+        """loops and `if`s of the function body, numbered separately in source order: id(node) -> ('loop' | 'if', k)"""
+        self.sites, counters = {}, {"loop": 0, "if": 0}
+        def walk(n):
+            if isinstance(n, tuple):
+                if n and n[0] in ("for", "while", "if") and len(n) >= 3:
+                    kind = "if" if n[0] == "if" else "loop"
+                    self.sites[id(n)] = (kind, counters[kind]); counters[kind] += 1
+                for x in n[1:]: walk(x)
+            elif isinstance(n, list):
+                for x in n: walk(x)
+        walk(body)
+        self.body_ast = body                      # keeps the nodes alive: the ids stay valid
+
+    def state_order(self, M, order, node):
+        """M: the variables a loop / a falling-through `if` threads, in DECLARATION order (what the translation used from the start).
+        The canonical order is the order of their first assignment inside the construct, which does not depend on where and in
+        which order the variables were declared; the table pins, per construct of the pristine source, the permutation from the
+        canonical to the declaration order (driver/translate_src.py --pin-state-orders), so that moving a declaration (to the
+        point of first use, or past another one) leaves the tuple as it was.  Without an entry: declaration order, as before.
+        Any order is a correct translation (the same list is used for the initial state, the pattern and the result)."""
+        if len(M) < 2: return M
+        site = getattr(self, "sites", {}).get(id(node)) if node is not None else None
+        C = [v for v in order if v in M]
+        if site is None or len(C) != len(M): return M
+        if getattr(self, "pins", None) is not None:
+            self.pins["%s%d" % site] = [C.index(v) for v in M]
+            return M
+        perm = (self.spec.get("state_orders") or {}).get("%s%d" % site)
+        if perm is None or sorted(perm) != list(range(len(C))): return M
+        return [C[i] for i in perm]
 
     # ------------------------------------------------------------------ canonicalisation of counter loops (see the header)
     def dry(self, run):
@@ -1968,9 +2009,9 @@ class Translator:
             self.ctx.note(v)
             if dead: return []
             return [("let", ("v", v.g), g_raw("(Nat.min %s %s)" % (hi, lo) if kind == "down" else "(Nat.max %s %s)" % (lo, hi)))]
-        return self.for_stmt(("for", ("pvar", loopvar, False), it, inner_blk), env, rest, after=after)
+        return self.for_stmt(("for", ("pvar", loopvar, False), it, inner_blk), env, rest, after=after, site=s)
 
-    def for_in_stmt(self, pat, src, body, env, rest, drain):
+    def for_in_stmt(self, pat, src, body, env, rest, drain, site=None):
         """for x in v.drain(..) { body }: the elements in order (for_in, gen/SrcPrelude.v); v is empty afterwards"""
         B = []
         lst, tl = self.ex(src, env, B)
@@ -1981,8 +2022,9 @@ class Translator:
             self.ctx = self.ctx.sub(record=rec, cont=lambda env2: g_ok(g_raw("tt")))
             self.block(body, env_i, lambda env2, v: g_ok(g_raw("tt")))
         outer_ctx = self.ctx
-        M = self.assigned_in(run, env); shape = self.last_shape
+        M = self.assigned_in(run, env); shape, order = self.last_shape, self.last_order
         M = [v for v in M if v not in env.uninit]
+        M = self.state_order(M, order, site)
         owner = self.root_var(src, env)
         if owner in M: self.bad("the vector a `for` loop drains is assigned inside the loop")
         names = self.state_of(M)
@@ -2023,8 +2065,9 @@ class Translator:
             self.block(body, env, lambda env2, v: g_ok(g_raw("tt")))
         outer_ctx = self.ctx
         saved_w = self.nwhile
-        M = self.assigned_in(run, env); shape = self.last_shape
+        M = self.assigned_in(run, env); shape, order = self.last_shape, self.last_order
         M = [v for v in M if v not in env.uninit]
+        M = self.state_order(M, order, s)
         self.nwhile = saved_w
         names = self.state_of(M)
         nxt = g_ok(g_raw("(WNext %s)" % names_term(names)))
@@ -2107,6 +2150,7 @@ class Translator:
         ret = lambda env2, v: g_ok(g_raw(assemble(env2, v)))
         self.ctx = Ctx(ret, lambda env2: self.bad("`continue` outside a loop"), [], ret_raw=lambda t: g_ok(g_raw(t)))
         body = fn_body_ast(fn, self.what)
+        self.number_sites(body)
         term = self.block(body, env, lambda env2, v: ret(env2, v))
         return gparams, term, self.result_type
 
